@@ -5,7 +5,7 @@ Model of the HTTP/1.1 transfer decoders of `twisted/web/http.py` (C22):
   `_dataReceived_TRAILER`, `_dataReceived_BODY`, `_dataReceived_FINISHED`, `dataReceived`,
   `noMoreData`; module constants `maxChunkSizeLineLength`, `_chunkExtChars`;
 * `_IdentityTransferDecoder` — `dataReceived`, `noMoreData`;
-* `toChunk`;
+* `toChunk`, `fromChunk`;
 * `twisted/web/_abnf.py` — `_ishexdigits`, `_hexint`, `_decint`.
 
 The decoder object is the record `Dec`: the Python attributes `state`, `_buffer`, `_start`,
@@ -15,6 +15,10 @@ concatenation of everything passed to `dataCallback` (`data`) and the list of ar
 not modelled.)  A raise is `Except.error (class, decoder at the time of the raise)`.
 Every `_dataReceived_*` handler raises before it delivers anything, so the `data`/`fin` of the
 decoder carried by the error are exactly what the callbacks had received before the raise.
+Every handler also finishes updating the decoder (`state`, `_buffer`, `length`) BEFORE it calls
+`dataCallback`/`finishCallback` (and `_IdentityTransferDecoder.dataReceived` sets `contentLength = 0` and
+drops both callbacks before calling them): the record a handler returns is, apart from `data`/`fin`,
+the decoder a callback sees — what a `noMoreData()` called from inside the callback works on.
 -/
 namespace Twisted.Http.Chunked
 
@@ -77,6 +81,28 @@ def toHex (n : Nat) : Bytes := toHexAux (n + 1) n []
 
 /-- `b"".join(toChunk(data))` -/
 def toChunk (data : Bytes) : Bytes := toHex data.length ++ [CR, LF] ++ data ++ [CR, LF]
+
+/-! ### `fromChunk` -/
+
+/-- `data.split(b"\r\n", 1)` unpacked into two names: `none` when there is no CRLF (the unpacking of
+    a 1-element list raises `ValueError`) -/
+def splitCRLF : Bytes → Option (Bytes × Bytes)
+  | [] => none
+  | c :: rest =>
+    if c = CR ∧ rest.head? = some LF then some ([], rest.tail)
+    else match splitCRLF rest with
+      | none => none
+      | some (a, b) => some (c :: a, b)
+
+/-- `fromChunk(data)`; `none` = `ValueError`.  (`length < 0` cannot happen after `_hexint`;
+    `rest[length : length + 2]` is `(rest.drop length).take 2`.) -/
+def fromChunk (data : Bytes) : Option (Bytes × Bytes) :=
+  match splitCRLF data with
+  | none => none
+  | some (pre, rest) =>
+    match hexint pre with
+    | none => none
+    | some n => if (rest.drop n).take 2 = [CR, LF] then some (rest.take n, rest.drop (n + 2)) else none
 
 /-! ### `_ChunkedTransferDecoder` -/
 
